@@ -39,6 +39,7 @@ def main():
         sys.exit(0 if ok else 1)
 
     t0 = time.time()
+    fw.clear_replays(pid)
     ctx = fw.Ctx(pid, tier, seed)
     broken = []          # list of dicts {kind, name, detail}
     coq = {'obligations': 0, 'discharged': 0, 'checker_cmd': '', 'axioms': [], 'theorems': [], 'closed': 0}
